@@ -17,6 +17,7 @@ NOTE = "trusted: the simulator's loop semantics (FIFO call_soon, I/O before time
 
 CHECKS = {
     # id: (engine, level, text, design_ref)
+    "C03": ("pair", "exploration", "corruption-fault injection into a live two-node scenario and into a SimpleService endpoint: corrupted copies of valid messages, foreign SOME/IP messages and arbitrary bytes from known and unknown senders on both channels, also exactly at timer deadlines; no exception may reach the loop, and when every injected message is non-decodable the run must equal, event for event and in final discovery / subscription / session state, the twin run without them. Every injected byte string also goes through the four decoders with a step watchdog, and the accept sets are compared with the reference decoder (that half is input generation riding on the corruptor)", "DESIGN.md §6 C03"),
     "C04": ("pair", "exploration", "two or three complete real stacks on the simulated network; stop / start / crash / restart of either side at random instants and at the recorded deadlines and transmission instants of a fault-free pre-run, loss / duplication / delay / partition windows, clock drift, multicast loopback; bounded liveness (CONVERGED within TTL + period + slack after the last disturbance) plus the complete C05 and C06 oracles on every incarnation during the whole run; a separate class covers infinite TTLs without refresh on a lossless network", "DESIGN.md §6 C04"),
     "C05": ("single", "exploration", "complete sweep of all histories up to length 3 (quick) / 4 (thorough) over a 21-symbol alphabet that places messages at, just before and just after every TTL deadline, plus random histories of 5-40 steps; every run judged by ALT / TRUTH / REBOOT-ORDER / FILTER against the store model", "DESIGN.md §6 C05"),
     "C06": ("single", "exploration", "complete sweep of all histories up to length 3 / 4 over a 24-symbol alphabet (Subscribe, StopSubscribe, reboot evidence, listener decisions, service stop/start, deadline-aligned instants) plus random histories; judged by ALT / TRUTH / NO-REJECTED / ACK-HELD / REBOOT-ORDER", "DESIGN.md §6 C06"),
